@@ -304,3 +304,23 @@ func enumDecode(alpha []Step, maxLen, idx int) []Step {
 	}
 	return nil
 }
+
+// guardExec is deferred by every engine's Exec.  A panic that escapes the
+// per-step handling (in a check performed before the first step, in a final
+// probe, in the set-up of a template shared by the tasks) is the library's if
+// one of its functions is on the panicking stack: that is a violation of the
+// property being exercised (its calls are all within the documented API), not
+// trouble of the harness.  A panic with no library frame is the harness's own
+// bug and is left to crash the process (exit 2, never VIOLATION).
+func guardExec(id string, out **Result) {
+	r := recover()
+	if r == nil {
+		return
+	}
+	pi := capturePanic(r)
+	if pi.Frame == "?" {
+		panic(r)
+	}
+	*out = &Result{Violation: &Violation{Property: id, Signature: id + "/panic@exec:" + pi.Frame, Detail: "panic: " + pi.Value},
+		Probes: map[string]int{}, Faults: map[string]int{}, LogHash: "panicked"}
+}
